@@ -202,7 +202,7 @@ RETCODE adfReadDataBlock ( struct AdfVolume * const vol,
     if ( rc != RC_OK ) {
         adfEnv.eFct ( "adfReadDataBlock: error reading block %d, volume '%s'",
                        nSect, vol->volName );
-        //return RC_ERROR;
+        return rc;      /* nothing was read: the caller's buffer is left alone */
     }
 
     memcpy(data,buf,512);
@@ -291,7 +291,7 @@ RETCODE adfReadFileExtBlock ( struct AdfVolume * const     vol,
     if ( rc != RC_OK ) {
         adfEnv.eFct ( "adfReadFileExtBlock: error reading block %d, volume '%s'",
                       nSect, vol->volName );
-        //return RC_ERROR;
+        return rc;      /* nothing was read: the caller's buffer is left alone */
     }
 /*printf("read fext=%d\n",nSect);*/
     memcpy(fext,buf,sizeof(struct bFileExtBlock));
